@@ -322,7 +322,7 @@ fn gen_replies(rng: &mut StdRng, n: usize) -> Vec<String> {
 const INSPECTIONS: &[&str] = &[
     "PRINT A;B;C", "PRINT S$;T$", "PRINT P(1);Q(1,1)", "PRINT 1/0", "PRINT \"x\"+1", "LIST", "PRINT FNA(\"x\")",
     "PRINT FNB(1/0)", "PRINT R$(99)", "PRINT I;J", "?", "PRINT (", "REM just looking", "NEXT Q9", "GOTO", "X9 = ",
-    "PRINT FNE(0)", "PRINT FNE(1);FNE(0)", "PRINT FNE(FNE(0))",
+    "PRINT FNE(0)", "PRINT FNE(1);FNE(0)", "PRINT FNE(FNE(0))", "DEF FNA(Q) = Q", "DEF FNC(Q) = 1", "PRINT 1 : PRINT 2 : PRINT 3",
 ];
 
 /// C07: (program, schedule of breaks + inspections) vs (program, no breaks).
@@ -923,7 +923,29 @@ pub fn record_cycles(seed: u64, n: usize, out: &str, warn: bool, rep: &mut Repor
         vec!["10 A(1,1,1)=1:B(2,2,2)=2:C(3,3,3)=3:PRINT A(1,1,1)+B(2,2,2)+C(3,3,3)"],
         vec!["10 DIM S$(2000):S$(7)=\"abcdefghij\":PRINT S$(7);", "20 FOR I=1 TO 3:GOSUB 100:NEXT I:READ A,B$:PRINT A;B$", "30 DATA 4,\"x\"", "40 END", "100 K=K+1:RETURN"],
         vec!["10 DEF F(X)=X*2:FOR I=1 TO 2:FOR J=1 TO 2:N=N+F(J):NEXT J:NEXT I:PRINT N"],
+        // programs that fail, deep inside an expression, every time they are run
+        vec!["10 PRINT \"go\"", "20 PRINT ((100/A))"],
+        vec!["10 DEF F(X)=(1/X):PRINT (F((0)))"],
     ];
+    if !warn && seed % 100 == 0 {
+        // (first shard only) a breakpoint, then exactly 256 / 257 successful edits, then CONT: still CAN'T CONTINUE
+        for (k, edits) in [256u64, 257].iter().enumerate() {
+            let run = 800_000 + seed * 10 + k as u64;
+            let lines = vec!["10 X=1:STOP".to_string(), "20 PRINT \"OLD RUN GOES ON\"".to_string()];
+            let mut s = rec.reset(run, false, false, json!({"driver": "cycles", "role": "many_edits", "edits": edits}));
+            for l in &lines { rec.call(run, &mut s, call_submit(l)); }
+            rec.call(run, &mut s, call_submit("RUN"));
+            let mut replies = || "1".to_string();
+            drain(&mut rec, run, &mut s, &mut replies, 50);
+            for e in 0..*edits {
+                if s.dead { break; }
+                rec.call(run, &mut s, call_submit(&format!("{} REM {}", 1000 + e, e)));
+            }
+            if !s.dead { rec.call(run, &mut s, call_submit("CONT")); }
+            drain(&mut rec, run, &mut s, &mut replies, 50);
+            rep.count("many_edit_sessions");
+        }
+    }
     for i in 0..n as u64 {
         let mut rng = StdRng::seed_from_u64(seed ^ (i << 17) ^ 0xC1C);
         if i % 3 == 2 {
